@@ -182,7 +182,7 @@ def solution_stats(results):
 
 
 def run_plan(prop, tier, seed, rule, assumptions, make_problems, configs_quick, configs_thorough, stat_key, timeout_q=20,
-             timeout_t=90, expect=None, models=()):
+             timeout_t=90, expect=None, models=(), post=None):
     """make_problems(rd, tier, seed, ev) -> [(name, files)];  expect: dict name -> True when the problem must be solved"""
     ev = Evidence(prop, tier, seed, 'model_checking')
     ev.cov['rule'] = rule
@@ -206,6 +206,8 @@ def run_plan(prop, tier, seed, rule, assumptions, make_problems, configs_quick, 
             if expected is not None:
                 if check_expected(ev, prop, res, expected, cfg, rd):
                     break
+        if post and not ev.violations:
+            post(ev, rd, tier, seed)
         ev.cov['distinct_nontrivial'] = len(nontrivial)
         ev.cov['verdicts'] = verdicts
         ev.cov['configurations'] = configs
@@ -322,4 +324,28 @@ def feature_problems(rd, fams, seed, tier):
             ent += gen_features.causal_cross_family(seed, 50 * k)
         elif fam == 'incremental':
             ent += gen_features.incremental_family()
+        elif fam == 'multisuper':
+            ent += gen_features.multi_super_family()
+        elif fam == 'cardinality':
+            ent += gen_features.cardinality_family()
     return write_feature_problems(rd, ent), {n: s_ for n, p, s_ in ent}
+
+
+def exec_runs(ev, prop, rd, problems, seed, tier, policies=((50, 0, 0), (35, 35, 0))):
+    """the problems executed tick by tick by the real executor with a scripted client that delays starts / ends (exec_driver):
+    every plan adapted after a delay is recorded as a solution and validated with the contracts of 'prop'"""
+    libs = ('executor', 'solver', 'core', 'riddle', 'smt', 'json')
+    vlib.build_repo('dbg_exec')
+    drv = vlib.build_driver('exec_driver', 'dbg_exec', libs=libs)
+    runs, pol = [], {}
+    for name, files in problems:
+        if '--then' in files:
+            continue
+        for k, (pds, pde, pf) in enumerate(policies):
+            rn = '%s@x%d' % (name, k)
+            runs.append((rn, files))
+            pol[rn] = ['--exec', str(seed * 100 + k), str(pds), str(pde), str(pf), '45' if tier == 'quick' else '60']
+    remember(runs)
+    res = run_problems(drv, runs, os.path.join(rd, 'exec'), 20 if tier == 'quick' else 60, extra_args=lambda n: pol[n])
+    ev.cov['executions_with_adapted_plans'] = sum(1 for n, ls in res if sum(1 for ln in ls if '"e":"solution"' in ln) > 1)
+    return validate_results(ev, prop, res, 'exec')
